@@ -567,7 +567,7 @@ Proof.
     - apply Reqb_true in E. subst. apply Reqb_true. rewrite Rminus_diag_eq; auto. apply Rabs_R0.
     - apply Reqb_false in E. apply Reqb_false. intros H. apply E.
       destruct (Req_dec (a - b) 0) as [Z|Z]; [lra|]. pose proof (Rabs_pos_lt _ Z). lra. }
-  cbn [abs sub NumR]. rewrite E. destruct (Reqb a b); simpl; auto.
+  unfold is_zero in E, IH. simpl in E, IH. rewrite E. destruct (Reqb a b); simpl; rewrite IH; reflexivity.
 Qed.
 Theorem chebyshev_textbook x y M : chebyshev_d NumR (absdiff_pair NumR x y) = Some M ->
   (exists p, In p (combine x y) /\ M = Rabs (fst p - snd p)) /\
@@ -592,7 +592,7 @@ Proof.
   assert (C : (negb (is_zero NumR mass) || negb zs)%bool = true).
   { destruct Hc as [Hm| ->]; [|apply orb_true_r]. apply is_zero_false in Hm. now rewrite Hm. }
   rewrite C. cbv zeta. rewrite nsum_Rsum.
-  assert (M : Rsum (map (fun t : R => div NumR t a) w) = Rsum w / a).
+  assert (M : Rsum (map (fun t : T NumR => div NumR t a) w) = Rsum w / a).
   { cbn [div NumR]. unfold Rdiv. rewrite (Rsum_scale_w (/ a)). lra. }
   rewrite M. destruct (is_zero NumR (Rsum w / a)) eqn:E2.
   - apply is_zero_true in E2. exfalso. apply Hs.
@@ -620,17 +620,17 @@ Proof.
   intros Ha. unfold normalize. rewrite <- Lnorm1_textbook in Ha. set (a := Lnorm1 NumR w) in *.
   destruct (is_zero NumR a) eqn:E; [apply is_zero_true in E; contradiction|].
   replace (is_zero NumR 0) with true by (symmetry; now apply is_zero_true). cbn [negb orb].
-  destruct (rev w) as [|lst t] eqn:Er.
+  destruct (@rev (T NumR) w) as [|lst t] eqn:Er.
   - exfalso. apply Ha. unfold a. assert (w = []) as -> by (apply (f_equal (@rev R)) in Er; now rewrite rev_involutive in Er).
     rewrite Lnorm1_textbook. reflexivity.
   - assert (Hw : w = rev t ++ [lst]) by (apply (f_equal (@rev R)) in Er; now rewrite rev_involutive in Er).
-    eexists. split; [reflexivity|]. rewrite map_length. rewrite Hw at 1 2 3.
+    eexists. split; [reflexivity|]. rewrite map_length, nsum_Rsum. rewrite Hw.
     replace (length (rev t ++ [lst]) - 1)%nat with (length (rev t)) by (rewrite app_length; simpl; lia).
     rewrite set_nth_last. split.
-    + rewrite Hw, !app_length. reflexivity.
-    + rewrite nsum_Rsum. cbn [div mul opp sub NumR].
+    + rewrite !app_length. reflexivity.
+    + cbn [div mul opp sub NumR].
       rewrite (Rsum_map_ext _ (fun t0 => (zm / a) * t0)) by (intros; field; auto).
-      rewrite Rsum_map_scale, Rsum_map_id, Hw, !Rsum_app. simpl. lra.
+      rewrite Rsum_map_scale, Rsum_map_id, !Rsum_app. simpl. toR. lra.
 Qed.
 (* degenerate weights: nothing can be scaled, the answer is all zeros (total 0, not mass) *)
 Theorem normalize_degenerate w mass zm : Rsum (map Rabs w) = 0 \/ Rsum w = 0 ->
@@ -639,8 +639,8 @@ Proof.
   intros H. unfold normalize. rewrite <- Lnorm1_textbook in H. set (a := Lnorm1 NumR w) in *.
   destruct (is_zero NumR a) eqn:E; auto. rewrite orb_true_r. cbv zeta. rewrite nsum_Rsum.
   apply is_zero_false in E. destruct H as [H|H]; [contradiction|].
-  replace (Rsum (map (fun t : R => div NumR t a) w)) with (Rsum w / a).
-  - rewrite H. replace (is_zero NumR (0 / a)) with true; auto. symmetry. apply is_zero_true. field; auto.
+  replace (Rsum (map (fun t : T NumR => div NumR t a) w)) with (Rsum w / a).
+  - rewrite H. replace (is_zero NumR (0 / a)) with true; auto. symmetry. apply is_zero_true. toR. unfold Rdiv. lra.
   - cbn [div NumR]. unfold Rdiv. rewrite (Rsum_scale_w (/ a)). lra.
 Qed.
 
@@ -659,7 +659,7 @@ Proof.
   assert (Hsum : Rsum wts = n) by (unfold wts; rewrite Rsum_scale_w; field; auto).
   assert (Hwf : wf x (Some wts)) by (apply wf_some; [unfold wts; now rewrite map_length|rewrite Hsum; auto]).
   destruct (impose_mean_hits m x (Some wts) Hwf) as (y & Hy & Hly & Hm).
-  exists y, wts. rewrite Hy. cbn [obind]. repeat split; auto.
+  exists y, wts. change (T NumR) with R in *. rewrite Hy. cbn [obind]. repeat split; auto.
   unfold Rdiv. apply Rmult_integral_contrapositive_currified; auto. now apply Rinv_neq_0_compat.
 Qed.
 
@@ -669,7 +669,8 @@ Theorem impose_weight_norm_hits x w mass : length x = length w -> Rsum w <> 0 ->
 Proof.
   intros Hl Hs Hm. unfold impose_weight_norm. rewrite mean_weighted_sum by auto. cbn [obind].
   destruct (reweigh_core (dotR x w / Rsum w) mass x w Hl Hs Hm) as (y & wts & H1 & _ & _ & H3 & _ & H4).
-  exists y, wts. rewrite H1. auto.
+  exists y, wts. cbn [one NumR]. change (T NumR) with R in *. rewrite H1. repeat split; auto.
+  rewrite H4. symmetry. apply mean_weighted_sum; auto.
 Qed.
 
 (* ------------------------------------------------------------------ impose_support / impose_unweighted *)
@@ -716,11 +717,12 @@ Proof.
   destruct (reweigh_core (dotR x w / Rsum w) (Rsum w) x (keep_weights NumR index w))
     as (y & wts & H1 & H2 & H3 & H4 & H5 & H6); auto.
   { now rewrite keep_weights_length. }
-  exists y, wts, (Rsum w / Rsum (keep_weights NumR index w)). rewrite H1.
+  exists y, wts, (Rsum w / Rsum (keep_weights NumR index w)). cbn [one NumR]. change (T NumR) with R in *. rewrite H1.
   repeat split; auto.
   - now rewrite H2, map_length, keep_weights_length.
   - intros i Hi. rewrite H2, nth_scaled, nth_keep_weights by auto.
-    destruct (designated index (length w) i); lra.
+    change (T NumR) with R. destruct (designated index (length w) i); ring.
+  - rewrite H6. symmetry. apply mean_weighted_sum; auto.
 Qed.
 
 Corollary impose_support_zeroes_exactly index x w :
@@ -739,9 +741,9 @@ Qed.
 Theorem impose_support_undefined index x w :
   Rsum w <> 0 -> Rsum (keep_weights NumR index w) = 0 -> impose_support NumR index x w = None.
 Proof.
-  intros Hs Hk. unfold impose_support. destruct (mean NumR x (Some w)); auto. cbn [obind].
+  intros Hs Hk. unfold impose_support. destruct (mean NumR x _) as [m|]; [|reflexivity]. cbn [obind].
   rewrite normalize_degenerate by auto. cbn [obind]. unfold impose_mean.
-  rewrite mean_undefined_zero_weight; auto.
+  rewrite mean_undefined_zero_weight; [reflexivity|].
   unfold zeros. cbn [mul zero NumR]. rewrite (Rsum_map_ext _ (fun _ => 0)) by (intros; lra).
   rewrite Rsum_map_const. lra.
 Qed.
@@ -762,11 +764,12 @@ Proof.
   destruct (reweigh_core (dotR x w / Rsum w) (Rsum w) x (drop_weights NumR (Some ix) w))
     as (y & wts & H1 & H2 & H3 & H4 & H5 & H6); auto.
   { now rewrite drop_weights_length. }
-  exists y, wts, (Rsum w / Rsum (drop_weights NumR (Some ix) w)). rewrite H1.
+  exists y, wts, (Rsum w / Rsum (drop_weights NumR (Some ix) w)). cbn [one NumR]. change (T NumR) with R in *. rewrite H1.
   repeat split; auto.
   - now rewrite H2, map_length, drop_weights_length.
   - intros i Hi. rewrite H2, nth_scaled. rewrite (nth_drop_weights (Some ix)) by auto.
-    cbn [designated]. destruct (in_index (length w) ix i); lra.
+    cbn [designated]. change (T NumR) with R. destruct (in_index (length w) ix i); ring.
+  - rewrite H6. symmetry. apply mean_weighted_sum; auto.
 Qed.
 Corollary impose_unweighted_zeroes_exactly ix x w nullable :
   length x = length w -> Rsum w <> 0 -> Rsum (drop_weights NumR (Some ix) w) <> 0 ->
@@ -780,4 +783,260 @@ Proof.
   destruct (in_index (length w) ix i); split; intros H; auto.
   - right. apply Rmult_integral in H. destruct H; auto. contradiction.
   - destruct H as [H|H]; [discriminate|]. rewrite H. lra.
+Qed.
+
+(* ------------------------------------------------------------------ impose_collapse *)
+Lemma set_nth_length {A} (l : list A) i a : length (set_nth l i a) = length l.
+Proof. revert i; induction l; intros [|i]; simpl; auto. Qed.
+Lemma nth_set_nth_eq {A} (l : list A) i a d : (i < length l)%nat -> nth i (set_nth l i a) d = a.
+Proof. revert i; induction l; intros [|i] H; simpl in *; try lia; auto. apply IHl; lia. Qed.
+Lemma nth_set_nth_neq {A} (l : list A) i j a d : i <> j -> nth j (set_nth l i a) d = nth j l d.
+Proof. revert i j; induction l; intros [|i] [|j] H; simpl; auto; try congruence. Qed.
+Lemma Rsum_set_nth (l : list R) i a : (i < length l)%nat -> Rsum (set_nth l i a) = Rsum l - nth i l 0 + a.
+Proof.
+  revert i; induction l as [|b l IH]; intros [|i] H; simpl in *; try lia; try lra.
+  rewrite IH by lia. lra.
+Qed.
+
+(* the inner loop of one dict entry *)
+Definition cinner (i : nat) (ks : list nat) (st : list R * list R * R) : list R * list R * R :=
+  fold_left (fun (st : list R * list R * R) k =>
+               let '(x, w, v) := st in (set_nth x k (nth i x 0), set_nth w k 0, v + nth k w 0)) ks st.
+
+Lemma collapse_entry_cinner x w i ks :
+  collapse_entry NumR (x, w) (i, ks) =
+  (fst (fst (cinner i ks (x, w, nth i w 0))),
+   set_nth (snd (fst (cinner i ks (x, w, nth i w 0)))) i (snd (cinner i ks (x, w, nth i w 0)))).
+Proof.
+  unfold collapse_entry, cinner. cbn [fst snd add zero NumR]. change (T NumR) with R.
+  match goal with |- context [fold_left ?f ks ?s] => destruct (fold_left f ks s) as [[x1 w1] v1] end.
+  reflexivity.
+Qed.
+
+Lemma cinner_lengths i ks x w v :
+  length (fst (fst (cinner i ks (x, w, v)))) = length x /\
+  length (snd (fst (cinner i ks (x, w, v)))) = length w.
+Proof.
+  revert x w v; induction ks as [|k ks IH]; intros x w v; [simpl; auto|].
+  change (cinner i (k :: ks) (x, w, v)) with (cinner i ks (set_nth x k (nth i x 0), set_nth w k 0, v + nth k w 0)).
+  destruct (IH (set_nth x k (nth i x 0)) (set_nth w k 0) (v + nth k w 0)) as [H1 H2].
+  now rewrite H1, H2, !set_nth_length.
+Qed.
+
+Lemma cinner_total i ks x w v :
+  ~ In i ks -> Forall (fun k => (k < length w)%nat) ks ->
+  snd (cinner i ks (x, w, v)) + Rsum (snd (fst (cinner i ks (x, w, v)))) = v + Rsum w /\
+  nth i (snd (fst (cinner i ks (x, w, v)))) 0 = nth i w 0.
+Proof.
+  revert x w v; induction ks as [|k ks IH]; intros x w v Hi Hk; [simpl; auto|].
+  change (cinner i (k :: ks) (x, w, v)) with (cinner i ks (set_nth x k (nth i x 0), set_nth w k 0, v + nth k w 0)).
+  inversion Hk as [|? ? Hk1 Hk2]; subst.
+  destruct (IH (set_nth x k (nth i x 0)) (set_nth w k 0) (v + nth k w 0)) as [H1 H2].
+  - intros H; apply Hi; now right.
+  - rewrite set_nth_length; auto.
+  - rewrite H1, H2, Rsum_set_nth by auto. split; [lra|].
+    apply nth_set_nth_neq. intros ->. apply Hi; now left.
+Qed.
+
+Definition entry_ok (n : nat) (e : nat * list nat) : Prop :=
+  (fst e < n)%nat /\ ~ In (fst e) (snd e) /\ Forall (fun k => (k < n)%nat) (snd e).
+
+Lemma collapse_entry_lengths x w e :
+  length (fst (collapse_entry NumR (x, w) e)) = length x /\
+  length (snd (collapse_entry NumR (x, w) e)) = length w.
+Proof.
+  destruct e as [i ks]. rewrite collapse_entry_cinner. cbn [fst snd].
+  destruct (cinner_lengths i ks x w (nth i w 0)) as [H1 H2]. now rewrite set_nth_length.
+Qed.
+
+Lemma collapse_entry_total x w e : entry_ok (length w) e ->
+  Rsum (snd (collapse_entry NumR (x, w) e)) = Rsum w.
+Proof.
+  destruct e as [i ks]. intros (Hi & Hn & Hk). cbn [fst snd] in *.
+  rewrite collapse_entry_cinner. cbn [fst snd].
+  destruct (cinner_lengths i ks x w (nth i w 0)) as [_ L].
+  destruct (cinner_total i ks x w (nth i w 0) Hn Hk) as [H1 H2].
+  change (T NumR) with R in *.
+  rewrite Rsum_set_nth by (rewrite L; auto). rewrite H2. lra.
+Qed.
+
+Lemma collapse_weights_lengths d x w :
+  length (fst (collapse_weights NumR d x w)) = length x /\
+  length (snd (collapse_weights NumR d x w)) = length w.
+Proof.
+  unfold collapse_weights. revert x w; induction d as [|e d IH]; intros x w; [simpl; auto|].
+  cbn [fold_left]. destruct (collapse_entry NumR (x, w) e) as [x1 w1] eqn:E.
+  destruct (collapse_entry_lengths x w e) as [H1 H2]. rewrite E in H1, H2. cbn [fst snd] in *.
+  destruct (IH x1 w1) as [H3 H4]. now rewrite H3, H4.
+Qed.
+
+Lemma collapse_weights_total d x w : Forall (entry_ok (length w)) d ->
+  Rsum (snd (collapse_weights NumR d x w)) = Rsum w.
+Proof.
+  unfold collapse_weights. revert x w; induction d as [|e d IH]; intros x w H; [reflexivity|].
+  inversion H as [|? ? He Hd]; subst. cbn [fold_left].
+  destruct (collapse_entry NumR (x, w) e) as [x1 w1] eqn:E.
+  pose proof (collapse_entry_total x w e He) as T. destruct (collapse_entry_lengths x w e) as [_ L].
+  rewrite E in T, L. cbn [fst snd] in *. rewrite IH; auto. now rewrite L.
+Qed.
+
+Lemma in_range_spec n d : in_range n d = true ->
+  Forall (fun e => (fst e < n)%nat /\ Forall (fun k => (k < n)%nat) (snd e)) d.
+Proof.
+  unfold in_range. rewrite forallb_forall, Forall_forall. intros H e He.
+  specialize (H e He). apply andb_true_iff in H as [H1 H2]. apply Nat.ltb_lt in H1. split; auto.
+  rewrite forallb_forall in H2. rewrite Forall_forall. intros k Hk. apply Nat.ltb_lt. auto.
+Qed.
+
+Lemma mean_some_nonzero x w m : mean NumR x (Some w) = Some m -> Rsum w <> 0.
+Proof. intros H Z. rewrite mean_undefined_zero_weight in H by auto. discriminate. Qed.
+
+(* whatever the pair set, the weighted mean under the returned weights is the old weighted mean *)
+Theorem impose_collapse_keeps_mean pairs x w y wts :
+  length x = length w -> impose_collapse NumR pairs x w = Some (y, wts) ->
+  length wts = length w /\ length y = length x /\ mean NumR y (Some wts) = mean NumR x (Some w).
+Proof.
+  intros Hl. unfold impose_collapse. destruct (mean NumR x _) as [m|] eqn:Em; [|discriminate]. cbn [obind].
+  destruct (all_some _) as [ps|]; [|discriminate]. cbn [obind]. cbv zeta.
+  destruct (in_range (length w) (connected ps) && in_range (length x) (connected ps))%bool; [|discriminate].
+  destruct (collapse_weights_lengths (connected ps) x w) as [L1 L2].
+  set (xw := collapse_weights NumR (connected ps) x w) in *.
+  destruct (impose_mean NumR m (fst xw) (Some (snd xw))) as [y'|] eqn:Ey; [|discriminate]. cbn [obind].
+  intros H; injection H as <- <-.
+  assert (Hnz : Rsum (snd xw) <> 0).
+  { unfold impose_mean in Ey. destruct (mean NumR (fst xw) _) as [mu|] eqn:E2; [|discriminate].
+    eapply mean_some_nonzero; eauto. }
+  change (T NumR) with R in *.
+  assert (Hwf : wf (fst xw) (Some (snd xw))) by (apply wf_some; auto; lia).
+  destruct (impose_mean_hits m _ _ Hwf) as (y2 & Hy2 & Hly & Hm). change (T NumR) with R in *.
+  rewrite Ey in Hy2. injection Hy2 as <-. repeat split; auto; lia.
+Qed.
+
+(* PARTIAL (the full statement -- for every pair set -- is refuted below): the total weight is preserved when no key
+   of tools.connected's dict sits in its own member set *)
+Theorem impose_collapse_keeps_total_partial pairs ps x w y wts :
+  length x = length w ->
+  all_some (map (pair_index (length w)) pairs) = Some ps ->
+  Forall (fun e => ~ In (fst e) (snd e)) (connected ps) ->
+  impose_collapse NumR pairs x w = Some (y, wts) ->
+  Rsum wts = Rsum w.
+Proof.
+  intros Hl Hps Hok. unfold impose_collapse. destruct (mean NumR x _) as [m|]; [|discriminate]. cbn [obind].
+  rewrite Hps. cbn [obind]. cbv zeta.
+  destruct (in_range (length w) (connected ps)) eqn:R1; [|discriminate]. cbn [andb].
+  destruct (in_range (length x) (connected ps)); [|discriminate].
+  destruct (impose_mean NumR m _ _) as [y'|]; [|discriminate]. cbn [obind].
+  intros H; injection H as _ <-. apply collapse_weights_total.
+  pose proof (in_range_spec _ _ R1) as B. rewrite Forall_forall in *. intros e He.
+  destruct (B e He). split; [|split]; auto.
+Qed.
+
+(* error branch: an index beyond the end raises IndexError *)
+Theorem impose_collapse_out_of_range pairs ps x w :
+  all_some (map (pair_index (length w)) pairs) = Some ps ->
+  in_range (length w) (connected ps) = false -> impose_collapse NumR pairs x w = None.
+Proof.
+  intros Hps Hr. unfold impose_collapse. destruct (mean NumR x _); auto. cbn [obind].
+  rewrite Hps. cbn [obind]. cbv zeta. now rewrite Hr.
+Qed.
+
+(* ---- which weights impose_collapse zeroes *)
+Lemma nth_set_nth_zero (l : list R) j k : nth k l 0 = 0 -> nth k (set_nth l j 0) 0 = 0.
+Proof.
+  intros H. destruct (Nat.eq_dec j k) as [->|Hn]; [|now rewrite nth_set_nth_neq].
+  destruct (Nat.lt_ge_cases k (length l)); [now apply nth_set_nth_eq|].
+  apply nth_overflow. now rewrite set_nth_length.
+Qed.
+
+Lemma cinner_keeps_zero i ks x w v k :
+  nth k w 0 = 0 -> nth k (snd (fst (cinner i ks (x, w, v)))) 0 = 0.
+Proof.
+  revert x w v; induction ks as [|k0 ks IH]; intros x w v H; [exact H|].
+  change (cinner i (k0 :: ks) (x, w, v)) with (cinner i ks (set_nth x k0 (nth i x 0), set_nth w k0 0, v + nth k0 w 0)).
+  apply IH. now apply nth_set_nth_zero.
+Qed.
+
+Lemma cinner_zero_member i ks x w v k :
+  In k ks -> nth k (snd (fst (cinner i ks (x, w, v)))) 0 = 0.
+Proof.
+  revert x w v; induction ks as [|k0 ks IH]; intros x w v H; [destruct H|].
+  change (cinner i (k0 :: ks) (x, w, v)) with (cinner i ks (set_nth x k0 (nth i x 0), set_nth w k0 0, v + nth k0 w 0)).
+  destruct (Nat.eq_dec k0 k) as [->|Hn].
+  - apply cinner_keeps_zero.
+    destruct (Nat.lt_ge_cases k (length w)); [now apply nth_set_nth_eq|].
+    apply nth_overflow. now rewrite set_nth_length.
+  - apply IH. destruct H; [contradiction|auto].
+Qed.
+
+Lemma collapse_entry_zero_member x w i ks k : In k ks -> k <> i ->
+  nth k (snd (collapse_entry NumR (x, w) (i, ks))) 0 = 0.
+Proof.
+  intros Hk Hn. rewrite collapse_entry_cinner. cbn [snd]. rewrite nth_set_nth_neq by auto.
+  now apply cinner_zero_member.
+Qed.
+Lemma collapse_entry_keeps_zero x w i ks k : nth k w 0 = 0 -> k <> i ->
+  nth k (snd (collapse_entry NumR (x, w) (i, ks))) 0 = 0.
+Proof.
+  intros Hk Hn. rewrite collapse_entry_cinner. cbn [snd]. rewrite nth_set_nth_neq by auto.
+  now apply cinner_keeps_zero.
+Qed.
+
+Lemma collapse_weights_keeps_zero d x w k :
+  nth k w 0 = 0 -> (forall e, In e d -> k <> fst e) ->
+  nth k (snd (collapse_weights NumR d x w)) 0 = 0.
+Proof.
+  unfold collapse_weights. revert x w; induction d as [|[i ks] d IH]; intros x w H Hk; [exact H|].
+  cbn [fold_left]. change (T NumR) with R in *. destruct (collapse_entry NumR (x, w) (i, ks)) as [x1 w1] eqn:E.
+  apply IH.
+  - pose proof (collapse_entry_keeps_zero x w i ks k H) as Z. change (T NumR) with R in Z. rewrite E in Z. apply Z.
+    apply (Hk (i, ks)). now left.
+  - intros e He. apply Hk. now right.
+Qed.
+
+(* PARTIAL: when no member of any set is also a key (a "flat" dict -- what tools.connected returns when it manages to
+   merge every component), every member ends with weight exactly 0 *)
+Lemma collapse_weights_zero_members d x w :
+  (forall e e', In e d -> In e' d -> ~ In (fst e) (snd e')) ->
+  forall e k, In e d -> In k (snd e) -> nth k (snd (collapse_weights NumR d x w)) 0 = 0.
+Proof.
+  unfold collapse_weights. revert x w; induction d as [|[i ks] d IH]; intros x w Hflat e k He Hk; [destruct He|].
+  cbn [fold_left]. change (T NumR) with R in *. destruct (collapse_entry NumR (x, w) (i, ks)) as [x1 w1] eqn:E.
+  destruct He as [<-|He].
+  - cbn [snd] in Hk.
+    apply (collapse_weights_keeps_zero d x1 w1 k).
+    + pose proof (collapse_entry_zero_member x w i ks k Hk) as Z. change (T NumR) with R in Z. rewrite E in Z. apply Z.
+      intros ->. apply (Hflat (i, ks) (i, ks)); try now left. exact Hk.
+    + intros e' He' ->. apply (Hflat e' (i, ks)); [now right|now left|exact Hk].
+  - apply (IH x1 w1) with (e := e); auto.
+    intros a b Ha Hb. apply Hflat; now right.
+Qed.
+
+Theorem impose_collapse_zeroes_members_partial pairs ps x w y wts :
+  all_some (map (pair_index (length w)) pairs) = Some ps ->
+  (forall e e', In e (connected ps) -> In e' (connected ps) -> ~ In (fst e) (snd e')) ->
+  impose_collapse NumR pairs x w = Some (y, wts) ->
+  forall e k, In e (connected ps) -> In k (snd e) -> nth k wts 0 = 0.
+Proof.
+  intros Hps Hflat. unfold impose_collapse. destruct (mean NumR x _) as [m|]; [|discriminate]. cbn [obind].
+  rewrite Hps. cbn [obind]. cbv zeta.
+  destruct (in_range (length w) (connected ps) && in_range (length x) (connected ps))%bool; [|discriminate].
+  destruct (impose_mean NumR m _ _) as [y'|]; [|discriminate]. cbn [obind].
+  intros H; injection H as _ <-. intros e k He Hk.
+  eapply collapse_weights_zero_members; eauto.
+Qed.
+
+(* ------------------------------------------------------------------ non-vacuity of the premises *)
+Lemma data_premises :
+  let x := [-1; 2; 5] in let w := [1; 0; 3] in
+  wf x (Some w) /\ wf x None /\ Rsum (keep_weights NumR (Some [0; -1]%Z) w) <> 0 /\
+  Rsum (drop_weights NumR (Some [1]%Z) w) <> 0 /\ CM 2 x w <> 0.
+Proof.
+  cbv zeta. repeat split.
+  - simpl. lra.
+  - simpl. lra.
+  - simpl. lra.
+  - simpl. lra.
+  - unfold CM, Mu, dotR, wsum. simpl.
+    replace (1 + (0 + (3 + 0))) with 4 by lra. intros H.
+    assert (E : forall a, a / 4 = a * (1 / 4)) by (intros; lra). rewrite !E in H. lra.
 Qed.
